@@ -4,6 +4,7 @@ import itertools
 from hypothesis import strategies as st
 
 import gen_misc
+import gen_util
 
 ID = "C11"
 OP = None
@@ -59,7 +60,7 @@ def strategy(tier):
     w37 = gen_misc.flag_word_batches(BITS37).map(lambda w: {"words": w, "only": "3.7", "_label": "flag_words"})
     w38 = gen_misc.flag_word_batches(BITS38).map(lambda w: {"words": w, "_label": "flag_words"})
     hdr = gen_misc.header_alterations().map(lambda a: {"alter": a, "_label": "header_alterations"})
-    return st.one_of(w37, w38, w38, hdr, hdr, hdr)
+    return gen_util.weighted((1, w37), (2, w38), (3, hdr))
 
 
 def fixed_cases(tier):
